@@ -233,6 +233,14 @@ Proof.
   rewrite (parse_sort_bad_start t Hbad Hne). reflexivity.
 Qed.
 
+Lemma dispatch_sortlist_empty ifs cfg rest1 v1 vr :
+  tokens s_sep_sortlist (v1 :: vr) = [] ->
+  resolv_dispatch nf true ifs cfg k_sortlist rest1 (v1 :: vr) = Ok cfg.
+Proof.
+  intros Ht. unfold resolv_dispatch, kw. simpl (bytes_eqb k_sortlist _). cbn [orb].
+  unfold parse_sortlist. unfold tokens in Ht. rewrite Ht. reflexivity.
+Qed.
+
 (* ------------------------------------------------------------------ options: unknown plain names *)
 Lemma process_option_plain cfg t :
   junk_option_plain t = true -> process_option cfg t = Ok cfg \/ exists st, process_option cfg t = Err st /\ st <> ARES_ENOMEM.
@@ -500,7 +508,7 @@ Proof.
     intros _. apply dispatch_nameserver_junk. exact Et. }
   destruct (bytes_eqb (keyword_of (c :: r)) k_sortlist) eqn:E2.
   { apply bytes_eqb_eq in E2. rewrite E2.
-    destruct (tokens s_sep_sortlist (v1 :: vr)) as [|t ts] eqn:Et; [discriminate|].
+    destruct (tokens s_sep_sortlist (v1 :: vr)) as [|t ts] eqn:Et; [intros _; apply dispatch_sortlist_empty; exact Et|].
     destruct (cannot_start_pattern t) eqn:Eb; [|discriminate].
     intros _. eapply dispatch_sortlist_junk; eassumption. }
   destruct (bytes_eqb (keyword_of (c :: r)) k_options) eqn:E3.
